@@ -592,6 +592,14 @@ func init() {
 			return ex.st.FP(math.Inf(-1))
 		},
 		"math.NaN": func(ex *Exec, fn *ssa.Function, a []Value) Value { return ex.st.FP(math.NaN()) },
+		// bytealg.MakeNoZero(n): a byte slice of length and capacity n with unspecified contents
+		// (strings.Builder.grow); zero-filled here, callers write before they read.
+		"internal/bytealg.MakeNoZero": func(ex *Exec, fn *ssa.Function, a []Value) Value {
+			n := ex.st.BVs(64, ex.argInt(a[0]))
+			ex.allocCheck(n, 1)
+			c := int(ex.argInt(a[0]))
+			return SliceV{arr: ex.newArray(types.Typ[types.Uint8], c), len: c, cap: c}
+		},
 		"internal/bytealg.Compare": func(ex *Exec, fn *ssa.Function, a []Value) Value {
 			x, y := ex.byteSliceTerms(a[0]), ex.byteSliceTerms(a[1])
 			st := ex.st
